@@ -19,11 +19,33 @@ def label(shape, dtype):
     return np.arange(n).reshape(shape).astype(dtype)
 
 
-def call(c, t):
+INTFORMS = {"npint64": np.int64, "npint32": np.int32, "npuint8": np.uint8, "npintp": np.intp}
+
+
+def argform(c, form):
+    """The same configuration with every integer argument (mode, skips, row/column modes, shape entries) handed
+    over as a NumPy integer scalar -- what `for mode in np.arange(ndim)`, `np.argmax(shape)`, entries of an
+    ndarray give.  The index bijection is a function of the integer VALUES; the spec has no notion of their type."""
+    f = INTFORMS[form]
+    d = dict(c)
+    for k in ("mode", "sb", "se"):
+        if k in d and isinstance(d[k], int) and not isinstance(d[k], bool) and (d[k] >= 0 or form != "npuint8"):
+            d[k] = f(d[k])
+    for k in ("rows", "cols"):
+        if k in d:
+            d[k] = [f(x) for x in d[k]]
+    return d
+
+
+def call(c, t, shapeform="tuple"):
     import tensorly as tl
     from tensorly.base import matricize
     op = c["op"]
     shape = tuple(c["shape"])
+    if shapeform == "list":
+        shape = list(shape)
+    elif shapeform == "npints":
+        shape = tuple(np.int64(x) for x in shape)
     if op == "unfold":
         out = tl.unfold(t, c["mode"])
         back = tl.fold(out, c["mode"], shape)
@@ -56,9 +78,9 @@ def call(c, t):
     return out, back
 
 
-def one_run(c, t, indtype):
+def one_run(c, t, indtype, shapeform="tuple"):
     try:
-        out, back = call(c, t)
+        out, back = call(c, t, shapeform)
     except Exception as ex:
         return {"raised": True, "exc": type(ex).__name__, "exact": True, "shape": [], "data": [], "dtype": "", "indtype": indtype,
                 "back_shape": [], "back": [], "back_dtype": ""}
@@ -97,6 +119,10 @@ def execute(case):
         # negative stride view
         rev = base[::-1].copy()[::-1]
         runs["f64_negstride"] = one_run(c, rev, "float64")
+    for form in case.get("intforms", []):
+        # argument forms: NumPy-integer modes / skips / row-column lists; shape as list or tuple of NumPy ints
+        runs["f64_" + form] = one_run(argform(c, form), label(shape, "float64"), "float64",
+                                      {"npint64": "npints", "npint32": "list"}.get(form, "tuple"))
     if case.get("bool"):
         # bool: superpose the one-hot patterns: sum_p p * f(onehot_p) recovers where entry p went
         acc_out = acc_back = None
@@ -131,7 +157,9 @@ def run(chk, opts):
         # every config: float64 + two rotating dtypes; every 7th (and all of order <= 2): all dtypes, layouts, bool
         full = thorough or k % 7 == 0 or len(c["shape"]) <= 2
         dts = DTYPES if full else ["float64", DTYPES[k % len(DTYPES)], DTYPES[(k * 5 + 3) % len(DTYPES)]]
-        cases.append({"id": "C01/%06d" % k, "cfg": c, "dtypes": sorted(set(dts)), "layouts": full, "bool": full and int(np.prod(c["shape"])) <= 36})
+        forms = sorted(INTFORMS) if full else [sorted(INTFORMS)[k % len(INTFORMS)]]
+        cases.append({"id": "C01/%06d" % k, "cfg": c, "dtypes": sorted(set(dts)), "layouts": full, "intforms": forms,
+                      "bool": full and int(np.prod(c["shape"])) <= 36})
     chk.add_cases(cases)
     events = execute_cases(execute, cases, repo=chk.repo)
     chk.rule = ("all %d configurations of TensorIndex.AllConfigs (exported from TLC's design run: every shape with order<=%s, every op/mode/"
